@@ -1,10 +1,14 @@
 #!/bin/bash
 # fresh-restore build, offline: regenerate the model tables from /repo, build the Lean
-# model, the proofs and the compiled driver.
-set -e
+# model, the proofs and the compiled drivers.  A property whose model or proofs do not build
+# does not stop the others (its own check reports it).
 cd "$(dirname "$0")"
-/venv/bin/python -W ignore tools/extract_tables.py
+/venv/bin/python -W ignore tools/extract_tables.py || echo "setup: translator reported failures (the affected checks will report them)"
 cd lean
-lake build 2>&1 | grep -v '^✔' | tail -40
-test -x .lake/build/bin/unytmodel
+exes="unytmodel $(sed -n 's/^name = "\(drv_c[0-9]*\)"$/\1/p' lakefile.toml | tr '\n' ' ')"
+flock .build.lock lake build 2>&1 | grep -v '^✔\|^ℹ\|^info' | tail -40
+for e in $exes; do
+  flock .build.lock lake build "$e" 2>&1 | grep -v '^✔\|^ℹ\|^info\|Build completed' | tail -5
+done
+test -x .lake/build/bin/unytmodel || { echo "setup: FAILED (shared driver not built)"; exit 1; }
 echo "setup: ok"
